@@ -3,12 +3,17 @@ SPEC = {
     "theorems": [
         "AM.Config.validate_ok_wellformed", "AM.Config.illformed_rejected",
         "AM.Config.failed_reload_keeps_config", "AM.Config.invalid_reload_keeps_config", "AM.Config.successful_reload_applies",
+        "AM.Config.ordered_failed_reload_keeps_running", "AM.Config.reloaderSteps_safe", "AM.Config.failed_reload_keeps_running",
+        "AM.Config.reload_fails_at_every_fallible_step", "AM.Config.successful_reload_in_force",
+        "AM.Config.tracingAfterStop_unsafe", "AM.Config.fallible_after_stop_breaks",
         "AM.Config.secret_leaves_masked", "AM.Config.render_subset",
         "AM.Config.print_load_stable_partial", "AM.Config.print_load_loses_empty_group_by",
         "AM.Config.firstErr_none_all", "AM.Config.receiversErr_none", "AM.Config.nodeErr_none",
     ],
     "engines": [
         {"name": "config", "pkg": "./config", "search_cases": 3000, "timeout_quick": 300, "timeout_thorough": 900},
+        # the real application in-process on loopback, real time: few scenarios; the widened search re-runs with 4 random ones
+        {"name": "reload", "pkg": "./reload", "search_cases": 4, "timeout_quick": 400, "timeout_thorough": 900, "timeout_search": 400},
     ],
     "rule": "generated raw configurations (routing trees depth<=3 with receivers/matchers/group_by incl. explicit [] and '...', mute/active intervals, "
             "durations; receivers; time intervals; inhibit rules; global block; 0-2 injected faults out of 24 kinds) -> YAML -> real config.Load: accept/reject "
@@ -16,7 +21,13 @@ SPEC = {
             "compared for secret-free configs; a configuration with all 18 integration kinds and 45 secret-bearing fields set to unique canaries: "
             "Config.String() searched for every canary; real config.Coordinator on a file rewritten to valid/invalid/subscriber-refused configs; "
             "reflect walk over config.Config vs pinned harness/config/secret_fields.txt; malformed-input stream (null injection, line edits, "
-            "type swaps, aliases, truncation, random bytes) with recover and a 5 s bound. Non-trivial = hits a tagged branch; distinct = hash of the case's lines",
+            "type swaps, aliases, truncation, random bytes) with recover and a 5 s bound; engine `reload`: the REAL application in-process "
+            "(app.New/Start/Reload/Stop on 127.0.0.1:0, cluster off, config file in a scratch dir, webhook receivers = an httptest server): "
+            "valid config -> alert posted through /api/v2/alerts -> notification observed at the receiver of the routed branch; reloads (POST /-/reload "
+            "and App.Reload) with configurations rejected at every reachable stage (YAML error, unknown field, undefined receiver, zero interval; template "
+            "syntax error, bad template glob; receiver whose http client cannot be built; tracing TLS CA / header file missing) -> error AND a NEW alert is "
+            "still notified by the OLD routing tree's receiver AND /api/v2/status still serves the old configuration; then a valid reload takes effect; "
+            "the source order of fallible / live-state steps of reloader.reload (go/ast) vs AM.Config.reloaderSteps and safeOrder. Non-trivial = hits a tagged branch; distinct = hash of the case's lines",
     "assumptions": [
         "YAML decoding itself (yaml.v2) is trusted: RawConfig is what it yields; a decoding fault is generated alone (class 'decode')",
         "document key order global, route, receivers, mute_time_intervals, time_intervals, inhibit_rules (error identity depends on it)",
@@ -24,5 +35,8 @@ SPEC = {
         "secret_leaves_masked: canaries are unique (not also a key / plain value) and differ from '<secret>'",
         "print_load_stable: secret-free configurations; partial: a child route's explicit `group_by: []` is lost (open finding F8, class=groupby-empty-override)",
         "totality on arbitrary bytes ('never panics or hangs') is a TEST (malformed-input stream), not a theorem",
+        "reloader model: a step that fails has no effect on the running instance (tracing.Manager.ApplyConfig builds the new provider before swapping); "
+        "the effect classes of the steps (Stop / Store / apih.Update / eventRecorder.ApplyConfig) are read off app/reloader.go by go/ast on every run",
+        "engine reload runs in real time on loopback: a notification due after group_wait=100ms is awaited for 20 s, twice",
     ],
 }
